@@ -17,7 +17,11 @@
 
 package kafka
 
-import "github.com/megaease/easegress/pkg/filters"
+import (
+	"fmt"
+
+	"github.com/megaease/easegress/pkg/filters"
+)
 
 type (
 	// Spec is spec of Kafka
@@ -39,3 +43,12 @@ type (
 		Header string `yaml:"header" jsonschema:"omitempty"`
 	}
 )
+
+// Validate validates the Dynamic spec: without a header name there is no way
+// to get the topic from the request.
+func (d *Dynamic) Validate() error {
+	if d.Header == "" {
+		return fmt.Errorf("header of dynamic topic is empty")
+	}
+	return nil
+}
